@@ -266,6 +266,9 @@ impl<H: Hasher> BatchMerkleProof<H> {
             return Err(MerkleTreeError::InvalidProof);
         }
 
+        // validate the indexes before they are used in any arithmetic
+        let index_map = super::map_indexes(indexes, self.depth as usize)?;
+
         let mut partial_tree_map = BTreeMap::new();
 
         for (&i, leaf) in indexes.iter().zip(self.leaves.iter()) {
@@ -277,7 +280,6 @@ impl<H: Hasher> BatchMerkleProof<H> {
 
         // replace odd indexes, offset, and sort in ascending order
         let original_indexes = indexes;
-        let index_map = super::map_indexes(indexes, self.depth as usize)?;
         let indexes = super::normalize_indexes(indexes);
         if indexes.len() != self.nodes.len() {
             return Err(MerkleTreeError::InvalidProof);
